@@ -276,7 +276,7 @@ func (e *SpecEnv) index(b, i Val) (Val, error) {
 		return Val{T: e.fc.defs.Select(b.T, i.T), Ty: u.Elem()}, nil
 	case *types.Basic:
 		if isString(b.Ty) {
-			return Val{T: fmt.Sprintf("(s.at %s %s)", b.T, i.T), Ty: types.Typ[types.Uint8]}, nil
+			return Val{T: e.fc.strAt(b.T, i.T), Ty: types.Typ[types.Uint8]}, nil
 		}
 	case *types.Pointer:
 		if a, ok := u.Elem().Underlying().(*types.Array); ok {
@@ -715,6 +715,29 @@ func (e *SpecEnv) evalCall(n *ast.CallExpr) (Val, error) {
 			}
 			lo = e.coerce(lo, types.Typ[types.Int])
 			hi = e.coerce(hi, types.Typ[types.Int])
+			if l, ok1 := smallConst(lo.T); ok1 {
+				if h, ok2 := smallConst(hi.T); ok2 && h-l <= 96 {
+					// literal range: expand
+					var parts []string
+					for k := l; k < h; k++ {
+						sub := *e
+						sub.bound = map[string]Val{}
+						for kk, v := range e.bound {
+							sub.bound[kk] = v
+						}
+						sub.bound[iv.Name] = Val{T: fmt.Sprintf("%d", k), Ty: types.Typ[types.Int]}
+						b, err := sub.evalBool(n.Args[3])
+						if err != nil {
+							return Val{}, err
+						}
+						parts = append(parts, b)
+					}
+					if id.Name == "forall" {
+						return Val{T: and(parts...), Ty: boolT}, nil
+					}
+					return Val{T: or(parts...), Ty: boolT}, nil
+				}
+			}
 			skolem := e.fc.defs.inline == 0 && ((id.Name == "forall" && e.pol > 0) || (id.Name == "exists" && e.pol < 0))
 			var bn string
 			if skolem {
@@ -819,7 +842,7 @@ func (e *SpecEnv) evalCall(n *ast.CallExpr) (Val, error) {
 				}
 				return Val{T: "(sl.len " + v.T + ")", Ty: intT}, nil
 			case *types.Basic:
-				return Val{T: "(s.len " + v.T + ")", Ty: intT}, nil
+				return Val{T: e.fc.strLen(v.T), Ty: intT}, nil
 			case *types.Array:
 				return Val{T: fmt.Sprintf("%d", u.Len()), Ty: intT}, nil
 			case *types.Map:
